@@ -590,3 +590,103 @@ Lemma c31_nonvacuous_lemma :
          HFire 0 0 1010000000 false; HClear 1010000000 1]
   end.
 Proof. vm_compute. repeat split; reflexivity. Qed.
+
+(* ---------------------------------------------------------------- clause 4 stated directly *)
+(* after clear() every callback run belongs to an event scheduled after that clear() *)
+Record Knv (n0 : nat) (h0 : list hentry) (s : state) : Prop := {
+  k_next : (n0 <= next s)%nat;
+  k_q : forall e, In e (q s) -> (n0 <= e_id e)%nat;
+  k_h : exists h', hist s = h0 ++ h' /\ forall id cb t r, In (HFire id cb t r) h' -> (n0 <= id)%nat }.
+
+Lemma Knv_step : forall res n0 h0 s o, Knv n0 h0 s -> Knv n0 h0 (step res s o).
+Proof.
+  intros res n0 h0 s [now [cb rep ms|k|]] [Kn Kq [h' [Kh Kf]]]; cbn [step].
+  - unfold schedule. constructor; cbn [q hist next].
+    + lia.
+    + intros e He. apply in_app_or in He. destruct He as [He|[<-|[]]]; [apply Kq; assumption|cbn; lia].
+    + exists (h' ++ [HSched (next s) cb rep ms now]). split; [rewrite Kh, app_assoc; reflexivity|].
+      intros id c t r H. apply in_app_or in H. destruct H as [H|[H|[]]]; [eapply Kf; eassumption|discriminate].
+  - unfold iter. destruct (top k (q s)) as [[op rest]|] eqn:T; cbn [fst].
+    2:{ constructor; cbn [q hist next]; try assumption.
+        exists (h' ++ [HQuiet now]). split; [rewrite Kh, app_assoc; reflexivity|].
+        intros id c t r H. apply in_app_or in H. destruct H as [H|[H|[]]]; [eapply Kf; eassumption|discriminate]. }
+    destruct (top_spec _ _ _ _ T) as [[l1 [l2 [Lq Lr]]] _].
+    assert (Hop : In op (q s)) by (rewrite Lq; apply in_or_app; right; left; reflexivity).
+    assert (Hsub : forall e, In e rest -> In e (q s)).
+    { intros e He. rewrite Lq. rewrite Lr in He. apply in_app_or in He. apply in_or_app.
+      destruct He; [left|right; right]; assumption. }
+    destruct (e_due op =? 0); cbn [fst].
+    + constructor; cbn [q hist next]; try assumption; [|exists h'; split; assumption].
+      intros e He. apply Kq. apply Hsub. exact He.
+    + destruct (e_due op <=? now); cbn [fst].
+      * constructor; cbn [q hist next]; try assumption.
+        -- intros e He. destruct (res (e_cb op) (runs_of (e_cb op) (hist s)) && e_rep op).
+           ++ apply in_app_or in He. destruct He as [He|[<-|[]]]; [apply Kq; apply Hsub; exact He|cbn; apply Kq; exact Hop].
+           ++ apply Kq. apply Hsub. exact He.
+        -- exists (h' ++ [HFire (e_id op) (e_cb op) now (res (e_cb op) (runs_of (e_cb op) (hist s)))]).
+           split; [rewrite Kh, app_assoc; reflexivity|].
+           intros id c t r H. apply in_app_or in H. destruct H as [H|[H|[]]]; [eapply Kf; eassumption|].
+           injection H as <- _ _ _. apply Kq. exact Hop.
+      * constructor; cbn [q hist next]; try assumption.
+        exists (h' ++ [HQuiet now]). split; [rewrite Kh, app_assoc; reflexivity|].
+        intros id c t r H. apply in_app_or in H. destruct H as [H|[H|[]]]; [eapply Kf; eassumption|discriminate].
+  - unfold clear. constructor; cbn [q hist next]; try assumption.
+    + intros e [].
+    + exists (h' ++ [HClear now (length (q s))]). split; [rewrite Kh, app_assoc; reflexivity|].
+      intros id c t r H. apply in_app_or in H. destruct H as [H|[H|[]]]; [eapply Kf; eassumption|discriminate].
+Qed.
+
+Lemma c31_clear_direct_lemma : forall res ops1 now ops2,
+  let s1 := run res ops1 init in
+  let s2 := run res ops2 (clear now s1) in
+  exists h', hist s2 = hist (clear now s1) ++ h' /\
+             forall id cb t r, In (HFire id cb t r) h' -> (next s1 <= id)%nat.
+Proof.
+  intros res ops1 now ops2 s1 s2.
+  assert (K0 : Knv (next s1) (hist (clear now s1)) (clear now s1)).
+  { constructor; cbn; [lia|intros e []|]. exists []. rewrite app_nil_r. split; [reflexivity|intros ? ? ? ? []]. }
+  assert (G : forall ops s, Knv (next s1) (hist (clear now s1)) s ->
+                            Knv (next s1) (hist (clear now s1)) (run res ops s)).
+  { induction ops as [|o ops IH]; intros s Ks; cbn; [assumption|]. apply IH. apply Knv_step. assumption. }
+  exact (k_h _ _ _ (G ops2 _ K0)).
+Qed.
+
+(* ids below [next s1] are exactly those handed out before: every schedule entry of the history
+   of s1 has a smaller id *)
+Lemma sched_ids_lemma : forall res ops id cb rep ms t,
+  In (HSched id cb rep ms t) (hist (run res ops init)) -> (id < next (run res ops init))%nat.
+Proof.
+  intros res ops.
+  assert (G : forall ops s, (forall id cb rep ms t, In (HSched id cb rep ms t) (hist s) -> (id < next s)%nat) ->
+              forall id cb rep ms t, In (HSched id cb rep ms t) (hist (run res ops s)) -> (id < next (run res ops s))%nat).
+  { induction ops0 as [|o ops0 IH]; intros s Hs; cbn; [exact Hs|]. apply IH.
+    destruct o as [now [cb rep ms|k|]]; cbn [step].
+    - unfold schedule; cbn [hist next]. intros id c r m t H. apply in_app_or in H. destruct H as [H|[H|[]]].
+      + specialize (Hs _ _ _ _ _ H). lia.
+      + injection H as <- _ _ _ _. lia.
+    - unfold iter. destruct (top k (q s)) as [[op rest]|]; cbn [fst].
+      + destruct (e_due op =? 0); cbn [fst hist next]; [exact Hs|].
+        destruct (e_due op <=? now); cbn [fst hist next]; intros id c r m t H; apply in_app_or in H;
+          (destruct H as [H|[H|[]]]; [exact (Hs _ _ _ _ _ H)|discriminate]).
+      + cbn [hist next]. intros id c r m t H. apply in_app_or in H.
+        destruct H as [H|[H|[]]]; [exact (Hs _ _ _ _ _ H)|discriminate].
+    - unfold clear; cbn [hist next]. intros id c r m t H. apply in_app_or in H.
+      destruct H as [H|[H|[]]]; [exact (Hs _ _ _ _ _ H)|discriminate]. }
+  intros id cb rep ms t. apply G. cbn. intros ? ? ? ? ? [].
+Qed.
+
+Lemma c31_clear_direct2_lemma : forall res ops1 now ops2,
+  let s1 := run res ops1 init in
+  let s2 := run res ops2 (clear now s1) in
+  exists h', hist s2 = hist s1 ++ [HClear now (length (q s1))] ++ h' /\
+    forall id cb rep ms t0, In (HSched id cb rep ms t0) (hist s1) ->
+    forall cb' t r, ~ In (HFire id cb' t r) h'.
+Proof.
+  intros res ops1 now ops2 s1 s2.
+  destruct (c31_clear_direct_lemma res ops1 now ops2) as [h' [H1 H2]]. fold s1 s2 in H1, H2.
+  exists h'. split.
+  - rewrite H1. cbn [clear hist]. rewrite <- app_assoc. reflexivity.
+  - intros id cb rep ms t0 Hs cb' t r Hf.
+    pose proof (sched_ids_lemma res ops1 _ _ _ _ _ Hs) as A. fold s1 in A.
+    pose proof (H2 _ _ _ _ Hf). lia.
+Qed.
